@@ -63,6 +63,9 @@ func (c09) Cases(tier string, seed uint64) []fw.Case {
 		{"many-partially-warm", 8, "partial", false, 600},
 		{"many-cold", 16, "cold", false, 2500},
 		{"lazy-consumers", 8, "warm", true, 300},
+		// a size-limited shared cache: whole index caches are evicted while searches and the writer
+		// use them (also the cache the writer itself holds), and are rebuilt by whoever comes next
+		{"many-warm-small-cache", 8, "warm", false, 300},
 		{"forced-interleavings", 1, "warm", false, 200},
 	}
 	batches := 40
@@ -81,6 +84,14 @@ func (c09) Cases(tier string, seed uint64) []fw.Case {
 			}
 			cs = append(cs, fw.Case{Seed: fw.CaseSeed(seed, "C09", i), Name: p.name, Params: map[string]any{"phase": p.name, "searchers": p.searchers, "start": p.start, "lazy": p.lazy, "prefill": pre, "batches": batches}})
 			i++
+			// the same phase on the build without the race detector: about five times as many searches per
+			// commit, which is what it took to see stale caches under a size limit
+			if p.name == "many-warm-small-cache" || p.name == "many-partially-warm" || p.name == "many-warm" {
+				for rep := 0; rep < 3; rep++ {
+					cs = append(cs, fw.Case{Seed: fw.CaseSeed(seed, "C09", i), Name: p.name + "/plain-build", Params: map[string]any{"phase": p.name, "searchers": p.searchers, "start": p.start, "lazy": p.lazy, "prefill": pre, "batches": batches, "plain_build": true}})
+					i++
+				}
+			}
 		}
 	}
 	return cs
@@ -368,7 +379,11 @@ func (c09) RunCase(c fw.Case, env *fw.Env) *fw.CaseResult {
 		}
 		s.Close()
 	}
-	cm := cache.NewManager(-1)
+	cacheLimit := int64(-1)
+	if strings.Contains(c.Str("phase", ""), "small-cache") {
+		cacheLimit = int64(20000 + 30000*(c.Idx%3)) // a few tens of kB: roughly one or two of the five indexes fit
+	}
+	cm := cache.NewManager(cacheLimit)
 	s, err := sx.Open(path, schema, cm, 0)
 	if err != nil {
 		res.Note("reopen: %v", err)
